@@ -587,6 +587,8 @@ def mon_c03(script, res):
     last_es = [None] * n
     backoff_since = [None] * n    # (reading of the BACKOFF notification lowered by smaller readings, tries)
     due_restart = [None] * n      # pass index by which an automatic restart must have happened
+    due_leave = [None] * n        # (pass, epoch): in BACKOFF with the retry delay over when that pass began
+    epoch = [0] * n               # number of state changes seen
     down = False
     rpc_window = None             # kind of the request being executed
     passno = -1
@@ -602,10 +604,23 @@ def mon_c03(script, res):
                     started_at[i] = now
                 if cur[i] == 30 and backoff_since[i] is not None and now < backoff_since[i][0]:
                     backoff_since[i] = (now, backoff_since[i][1])
+                # a process whose retry delay was over when a pass began is retried or given up in that pass:
+                # it does not sit in BACKOFF (the daemon not shutting down)
+                dl, due_leave[i] = due_leave[i], None
+                if dl is not None and dl[0] == passno - 1 and dl[1] == epoch[i] and cur[i] == 30 and not mood_low and not down:
+                    return ('p%d stayed in BACKOFF through a whole pass although its retry delay (%d s after the failure at '
+                            'reading %s) was over when the pass began: neither retried nor given up (startretries=%d, failed '
+                            'attempts %d)' % (i, backoff_since[i][1], backoff_since[i][0], script['procs'][i]['startretries'],
+                                              backoff_since[i][1]))
+                if cur[i] == 30 and backoff_since[i] is not None and now > backoff_since[i][0] + backoff_since[i][1] * U \
+                        and not mood_low and not down:
+                    due_leave[i] = (passno, epoch[i])
                 if due_restart[i] is not None and passno > due_restart[i] and cur[i] == 100 and not mood_low:
                     return 'p%d exited with status %s, policy demands an automatic restart, but it was still EXITED after a full pass' % (i, last_es[i])
         elif k == 'req':
             rpc_window = e[2]
+        elif k == 'life':
+            due_leave = [None] * n
         elif k == 'endacts':
             rpc_window = None
         elif k == 'sup' and e[1] == 2:
@@ -687,6 +702,7 @@ def mon_c03(script, res):
                 if bool(e[5]) != (es in c['exitcodes']):
                     return 'p%d exit status %s reported expected=%s, exitcodes=%s' % (i, es, e[5], c['exitcodes'])
             cur[i] = to
+            epoch[i] += 1
             if not (frm == 10 and to == 20):
                 pend[i] = False
         elif k == 'recycled':
